@@ -115,8 +115,13 @@ impl BitFont {
         self.font_type
     }
 
+    /// the built-in font: its name and its glyphs (an edited copy keeps the name, a writer that leaves the default font out must not drop it)
     pub fn is_default(&self) -> bool {
-        self.name == DEFAULT_FONT_NAME
+        if self.name != DEFAULT_FONT_NAME {
+            return false;
+        }
+        let default = BitFont::default();
+        self.size == default.size && self.length == default.length && self.convert_to_u8_data() == default.convert_to_u8_data()
     }
 
     pub fn convert_to_u8_data(&self) -> Vec<u8> {
